@@ -341,7 +341,7 @@ STATE_FILES = ["bip32.py", "base_wallet.py", "paper_wallet.py", "bip85.py", "wal
 
 
 TOPS = ["ckd0", "ckd1", "ckd2", "bpA", "bpB", "bpDeep", "bpDeep2", "children", "gen", "xkeys", "wif0", "wif1", "hex", "wasabi", "p2wpkh", "p2sh_p2wsh", "p2pkh0", "p2pkh1",
-        "generate", "wifnode", "xprvnode", "ser9", "parsexpub", "pubckdA", "pubckdB", "h_bech32t", "h_bech32", "h_b58", "h_script", "h_wif", "h_varint"]
+        "generate", "wifnode", "xprvnode", "ser9", "parsexpub", "pubckdA", "pubckdB", "acct84", "h_bech32t", "h_bech32", "h_b58", "h_script", "h_wif", "h_varint"]
 
 
 def harness(name):
@@ -391,6 +391,8 @@ def harness(name):
             # public-only derivation in both threads, from two different watch-only parents (module-level scratch of CKDpub)
             "pubckdA": lambda: c(pubA.ckd(3)), "pubckdB": lambda: c(pubB.ckd(4)),
             "h_bech32t": _h_bech32t,
+            # one section of the paper wallet (account node + one row): the part of generate() that derives an account
+            "acct84": lambda: project(list(w.bip84(1, (0, 1))), [_gen_exp()["BIP84"]["account_extended_keys"], _gen_exp()["BIP84"]["groups"]]),
             "h_bech32": _h_bech32, "h_b58": _h_b58, "h_script": _h_script, "h_wif": _h_wif, "h_varint": _h_varint,
         }
         bodies = [B[o] for o in ops]
@@ -553,6 +555,8 @@ def expected_op(op):
         return [hd.xpub(hd.derive(m, [0])) if j % 2 else hd.xprv(hd.derive(m, [0])) for j in range(9)], []
     if op == "parsexpub":
         return hdscen.canon_ref_node(hd.neuter(hd.derive(m, [5]))), []
+    if op == "acct84":
+        return [_gen_exp()["BIP84"]["account_extended_keys"], _gen_exp()["BIP84"]["groups"]], []
     if op in ("pubckdA", "pubckdB"):
         a_, i_ = (5, 3) if op == "pubckdA" else (6, 4)
         par = hd.neuter(hd.derive(m, [a_]))
@@ -762,11 +766,11 @@ def plan_for(thorough):
     for i, a in enumerate(b85):
         for b in b85[i:]:
             pairs.append((a, b))
-    pairs += [("generate", "generate"), ("xprvnode", "ser9"), ("xkeys", "ser9"), ("xkeys", "xkeys"), ("xkeys", "ckd0"), ("wif0", "bpA"), ("wasabi", "bpA"), ("wasabi", "wif0"), ("bpDeep", "bpB"), ("bpDeep", "bpDeep2")]
+    pairs += [("acct84", "acct84"), ("xprvnode", "ser9"), ("xkeys", "ser9"), ("xkeys", "xkeys"), ("xkeys", "ckd0"), ("wif0", "bpA"), ("wasabi", "bpA"), ("wasabi", "wif0"), ("bpDeep", "bpB"), ("bpDeep", "bpDeep2")]
     if thorough:
-        state_ops = [o for o in TOPS if o not in ("p2wpkh", "p2sh_p2wsh", "p2pkh0", "p2pkh1", "generate", "ckd2", "wifnode", "xprvnode", "ser9", "parsexpub", "pubckdA", "pubckdB")
+        state_ops = [o for o in TOPS if o not in ("p2wpkh", "p2sh_p2wsh", "p2pkh0", "p2pkh1", "generate", "ckd2", "wifnode", "xprvnode", "ser9", "parsexpub", "pubckdA", "pubckdB", "acct84")
                      and not o.startswith("h_")]
-        keep_pairs = [p_ for p_ in pairs if "ser9" in p_ or p_ == ("generate", "generate")]
+        keep_pairs = [p_ for p_ in pairs if "ser9" in p_] + [("generate", "generate")]
         pairs = [(a, b) for i, a in enumerate(state_ops) for b in state_ops[i:]] + keep_pairs
     for a, b in pairs:
         name = "%s|%s" % (a, b)
